@@ -176,6 +176,46 @@ func HarnessC04_ugcAttrs() {
 	verifAssert(ok, "C04")
 }
 
+// HarnessC04_ugcDup: the URL attribute of a UGC link/quote/image element given
+// twice (the attribute filter edits the list while it walks it): every emitted
+// URL attribute carries the normal form of an acceptable input value.
+func HarnessC04_ugcDup() {
+	p := UGCPolicy()
+	pos := nondetIntRange("dup.pos", 0, 4)
+	el := []string{"a", "area", "blockquote", "q", "img"}[pos]
+	key := []string{"href", "href", "cite", "cite", "src"}[pos]
+	verifNote("el", el)
+	noWS := func(v string) bool {
+		t := strings.TrimSpace(v)
+		return verifNot(verifOr(verifOr(strings.Contains(t, " "), strings.Contains(t, "\t")), strings.Contains(t, "\n")))
+	}
+	v0, v1 := nondetString("in.val"), nondetString("in.val")
+	verifAssume(noWS(v0))
+	verifAssume(noWS(v1))
+	in := []html.Attribute{{Key: key, Val: v0}, {Key: key, Val: v1}}
+	noteAttrs("in", in)
+	out := p.sanitizeAttrs(el, in, p.elsAndAttrs[el])
+	noteAttrs("out", out)
+	verifReach("C04-dup-reach")
+	ok := true
+	good := func(v string) (bool, string) {
+		t := strings.TrimSpace(v)
+		scheme := verifURLScheme(t)
+		schemeOK := verifOr(verifOr(scheme == "http", scheme == "https"), verifOr(scheme == "mailto", scheme == ""))
+		return verifAnd(verifURLOk(t), schemeOK), verifURLNorm(t)
+	}
+	g0, n0 := good(v0)
+	g1, n1 := good(v1)
+	for _, o := range out {
+		if o.Key == key {
+			c := verifOr(verifAnd(g0, o.Val == n0), verifAnd(g1, o.Val == n1))
+			verifNoteBool("c:url-scheme-http-https-mailto-or-relative", c)
+			ok = verifAnd(ok, c)
+		}
+	}
+	verifAssert(ok, "C04")
+}
+
 // HarnessC04_tables: the shipped constructors' switches.
 func HarnessC04_tables() {
 	u := UGCPolicy()
